@@ -8,6 +8,7 @@ import Cosi.Driver.Store
 import Cosi.Driver.Watch
 import Cosi.Driver.Helpers
 import Cosi.Driver.Pipeline
+import Cosi.Driver.Ctrl
 import Cosi.Driver.KeyStorage
 import Cosi.Driver.Queue
 import Cosi.Driver.DepDB
@@ -30,7 +31,8 @@ def engines : List (String × Engine) := [
   ("depdb", ⟨Driver.DepDB.St, Driver.DepDB.init, Driver.DepDB.stepLine⟩),
   ("registry", ⟨Driver.DepDB.RSt, Driver.DepDB.rinit, Driver.DepDB.rstepLine⟩),
   ("selector", ⟨Driver.Selector.St, Driver.Selector.init, Driver.Selector.stepLine⟩),
-  ("pipeline", ⟨Driver.Pipeline.St, Driver.Pipeline.init, Driver.Pipeline.stepLine⟩)
+  ("pipeline", ⟨Driver.Pipeline.St, Driver.Pipeline.init, Driver.Pipeline.stepLine⟩),
+  ("ctrl", ⟨Driver.Ctrl.St, Driver.Ctrl.init, Driver.Ctrl.stepLine⟩)
 ]
 
 partial def loop (e : Engine) (spec : Bool) (inp : IO.FS.Stream) (out : IO.FS.Stream) (st : e.σ) : IO Unit := do
